@@ -294,7 +294,7 @@ Proof.
   induction fuel as [|f IH]; intros q; cbn [nf]; [reflexivity|].
   destruct (nth_error (d_states d) q) as [[ts|brs|]|]; try reflexivity.
   - destruct (select ts sym_end) as [t|]; [|apply source_return_end_ok].
-    destruct (is_end sym_end && accepting d q && negb (has (t_on t) sym_end)); [apply source_return_end_ok|].
+    destruct (is_end sym_end && accepting d q && (negb (has (t_on t) sym_end) || t_err t)); [apply source_return_end_ok|].
     unfold body. rewrite early_adv_end. apply run_acts_end. exact IH.
   - induction brs as [|[[c|] t] r IHr]; cbn [conds tree_all]; [reflexivity| |].
     + unfold body. rewrite early_adv_end. rewrite (run_acts_end _ q t IH). exact IHr.
